@@ -38,6 +38,9 @@ MAX_ARRAY = 400
 NODE = "verif-node"
 
 
+PRE = "verif-pre-instruction"
+
+
 class StepLimit(BaseException):
     """more than `fuel` instructions (BaseException: not caught by the executor's handler)"""
 
@@ -93,11 +96,14 @@ class TraceExecutor(Executor):
 
     # -- observation / guards --------------------------------------------------
     def _execute_command(self, subroutine_id, command):
+        # a yield point before every instruction: lets the harness interleave subroutines of
+        # different applications at instruction granularity (DESIGN 3.4)
+        yield PRE
         if self.fuel is not None and self.steps >= self.fuel:
             raise StepLimit()
         self.steps += 1
         self.visited.append(self._program_counters[subroutine_id])
-        return super()._execute_command(subroutine_id, command)
+        return (yield from super()._execute_command(subroutine_id, command))
 
     def _clear_subroutine(self, subroutine_id):
         self.last_pc = self._program_counters.get(subroutine_id)
@@ -264,6 +270,7 @@ class Real:
             self.e = TraceExecutor(name=NODE)
         self.reserved = set()
         self.nmsg = 0
+        self.subs = []  # subroutines in flight (interleaving layer)
 
     def close(self):
         set_is_using_hardware(False)
@@ -374,7 +381,47 @@ class Real:
             finally:
                 e.fuel = None
             return {"out": out, "pc": pc, "visited": list(e.visited), "trace": e.events[n0:]}
+        if k == "spawn":
+            self.subs.append({"a": o["a"], "p": o["p"], "gen": None, "sid": None, "done": False})
+            return {"id": len(self.subs) - 1}
+        if k == "tick":
+            return self.tick(o)
         raise ValueError(k)
+
+    @staticmethod
+    def _to_pre(gen):
+        """resume a subroutine until it is parked before its next instruction"""
+        while next(gen) != PRE:
+            pass
+
+    def tick(self, o):
+        e = self.e
+        if o["i"] >= len(self.subs):
+            return {"o": "none", "trace": []}
+        sb = self.subs[o["i"]]
+        if sb["done"]:
+            return {"o": "done", "trace": []}
+        if "or" in o:
+            e.outcomes = list(o["or"])
+        e.fuel, e.last_pc = None, None
+        n0 = len(e.events)
+        try:
+            if sb["gen"] is None:
+                sub = Subroutine(instructions=[build(j) for j in sb["p"]], app_id=sb["a"])
+                sb["sid"] = e._next_subroutine_id
+                sb["gen"] = e.execute_subroutine(sub)
+                self._to_pre(sb["gen"])      # starts the subroutine, parks before instruction 0
+            self._to_pre(sb["gen"])          # one instruction, then parks before the next one
+            r = {"o": "live", "pc": e._program_counters.get(sb["sid"])}
+        except StopIteration:
+            sb["done"] = True
+            r = {"o": "halted", "pc": e.last_pc}
+        except Exception as ex:
+            sb["done"] = True
+            cls, line = _exc(ex)
+            r = {"o": "fault", "cls": cls, "line": line, "pc": e._program_counters.get(sb["sid"])}
+        r["trace"] = e.events[n0:]
+        return r
 
 
 def run_real(sc, observers=()):
@@ -406,6 +453,8 @@ def strip_model(step):
         r["fault"].pop("kind", None)
     if isinstance(r.get("out"), dict):
         r["out"].pop("kind", None)
+    if r.get("o") == "fault":
+        r.pop("kind", None)
     return s
 
 
@@ -508,8 +557,10 @@ class InvariantObserver:
                       tables=[sorted(k) for k in keysets])
         # (4) isolation: an operation of application a leaves every other application unchanged
         a = o.get("a")
+        if o["k"] == "tick":  # the application whose subroutine was resumed
+            a = real.subs[o["i"]]["a"] if o["i"] < len(real.subs) else None
         for b, before in self.snap.items():
-            if o["k"] in ("reserve",) or b != a:
+            if o["k"] in ("reserve", "spawn") or b != a:
                 now = self._snap_app(real, b)
                 if now != before:
                     self.fail("operation of one application changed another application's state", idx, o,
@@ -718,6 +769,50 @@ class Gen:
         return {"hw": False, "msg": msg, "apps": list(range(napps)), "addrs": [0, 1], "ops": ops}
 
 
+def par_scenario(rng, nticks):
+    """2-3 applications, one subroutine of each in flight at the same time (sometimes a second one of
+    the same application), advanced one instruction at a time in a random order; life-cycle
+    operations and link-layer actions may fall in between."""
+    r = rng
+    g = Gen(r)
+    g.hot = [(2, 0), (2, 1), (0, 0), (0, 1), (0, 2)]
+    g.addrs = [0, 1]
+    qw = ["set", "set", "set", "qalloc", "qalloc", "qfree", "store", "array", "array", "ret_reg", "ret_arr",
+          "add", "meas", "q1", "load", "undef", "lea", "bnz", "jmp"]
+    napps = r.choice([2, 2, 3])
+    ops = [{"k": "init", "a": a, "n": r.choice([1, 2, 3, 4])} for a in range(napps)]
+    apps_of = []
+    order = list(range(napps))
+    r.shuffle(order)
+    for a in order + ([r.randrange(napps)] if r.random() < 0.3 else []):
+        prog = []
+        if r.random() < 0.85:  # define the hot registers and an array first: longer-lived subroutines
+            prog = [["set", 0, 0, r.randrange(3)], ["set", 0, 1, r.randrange(50)], ["set", 0, 2, 3],
+                    ["set", 2, 0, 0], ["set", 2, 1, r.choice([0, 1])], ["array", 0, 2, r.randrange(2)]]
+        for _ in range(r.choice([3, 5, 8, 12])):
+            if r.random() < 0.45:
+                prog.append(["set", 2, r.randrange(2), r.choice([0, 0, 1, 1, 2, 3, -1])])
+            prog.append(g.instr(20, qw))
+        ops.append({"k": "spawn", "a": a, "p": prog})
+        apps_of.append(a)
+    for _ in range(nticks):
+        x = r.random()
+        if x < 0.90:
+            i = r.randrange(len(apps_of)) if r.random() < 0.97 else len(apps_of)
+            ops.append({"k": "tick", "i": i})
+        elif x < 0.93:
+            ops.append({"k": "stop", "a": r.randrange(napps)})
+        elif x < 0.96:
+            ops.append({"k": "init", "a": r.randrange(napps), "n": r.choice([1, 2, 3])})
+        elif x < 0.98:
+            ops.append({"k": "reserve"})
+        else:
+            a = r.randrange(napps)
+            ops.append({"k": "spawn", "a": a, "p": [g.instr(6, qw) for _ in range(r.choice([2, 4]))]})
+            apps_of.append(a)
+    return {"hw": False, "apps": list(range(napps)), "addrs": [0, 1], "ops": ops}
+
+
 def fix_keeps(sc):
     """Environment hypothesis of keep-responses: the physical id delivered is one the link layer holds
     (obtained through `reserve`).  `p: None` is replaced by a currently reserved id, computed by
@@ -812,6 +907,8 @@ def describe(sc):
         if o["k"] == "sub":
             lines.append(f"sub app={o['a']} fuel={o['fuel']} outcomes={o.get('or', [])}: " +
                          "; ".join(render(j) for j in o["p"]))
+        elif o["k"] == "spawn":
+            lines.append(f"spawn app={o['a']}: " + "; ".join(render(j) for j in o["p"]))
         else:
             lines.append(" ".join(f"{k}={v}" for k, v in o.items()))
     return lines
